@@ -11,11 +11,13 @@ P_Lims == {2, 4, 8}
 \* quick / thorough: long zones added so that the admitted class contains real windows
 Q_Lens == {3, 8, 20, 60}
 Q_Lims == {2, 4, 8}
+\* sign-encoded limits: the same magnitudes, some written with a negative value
+S_Lims == {2, 4, 8, -4, -8}
 T_Lens == {3, 8, 20, 60, 90}
 T_Lims == {2, 4, 8, 12}
 
 \* number of admitted profiles that contain a window (increase followed by a decrease): vacuity guard
-HasWindow == \E i \in 2..Len(sp) : sp[i][2] > sp[i-1][2] /\ \E j \in (i+1)..Len(sp) : sp[j][2] < sp[j-1][2]
+HasWindow == \E i \in 2..Len(sp) : V(sp, i) > V(sp, i-1) /\ \E j \in (i+1)..Len(sp) : V(sp, j) < V(sp, j-1)
 
 Emit == (Admitted /\ ~under) => PrintT(<<"REPLAY", ToJson([kind |-> "table", zones |-> sp, end |-> end])>>)
 =============================================================================
